@@ -3,7 +3,7 @@ open Fs Apply RenamePhase Undo Patch
 namespace UndoLemmas
 
 /-- undo STEP 1 applied to the moved tree gives the tree back (lemma-level guards) -/
-theorem undo_paths_core (t : Tree) (rs : List Ren) (g : Guards t rs) (h6 : NoLinks t rs) :
+theorem undo_paths_core (t : Tree) (rs : List Ren) (g : Guards t rs) :
     undoRenames rs (moveAll rs t) = (t, none) := by
   have hfl := fileLeaf_of_guards g.wf g.lo g.ko
   -- the two halves of the plan
@@ -29,7 +29,6 @@ theorem undo_paths_core (t : Tree) (rs : List Ren) (g : Guards t rs) (h6 : NoLin
   have hloop1 : renameBack (moveAll rs t) (S.map mp) = (moveAll F t, none) := by
     rw [← moveAll_perm g.ds hperm t]
     apply renameBack_loop t F S gSF
-    · intro r hr; exact h6 r (hD r ((hSD r).1 hr)).1
     · have hs : S.Pairwise (fun a b => leD a b = true) :=
         sortBy_sorted leD (by intro a b h; simp only [leD, decide_eq_false_iff_not, decide_eq_true_eq] at h ⊢; omega)
           (by intro a b c h1 h2; simp only [leD, decide_eq_true_eq] at h1 h2 ⊢; omega) D
@@ -57,7 +56,7 @@ theorem undo_paths_core (t : Tree) (rs : List Ren) (g : Guards t rs) (h6 : NoLin
   have gS2 : Guards t (S2 ++ []) := gF.of_mem (Distinct.perm hp2 gF.ds) (fun r hr => hp2.mem_iff.2 hr)
   have hloop2 : renameBack (moveAll F t) (S2.map mp) = (t, none) := by
     rw [← moveAll_perm gF.ds hp2 t]
-    have := renameBack_loop t [] S2 gS2 (by intro r hr; exact h6 r (hF r ((hS2F r).1 hr)).1)
+    have := renameBack_loop t [] S2 gS2
       (pairwise_of_forall S2 (by
         intro x hx y hy hpre
         exact hfl y (hF y ((hS2F y).1 hy)).1 (hF y ((hS2F y).1 hy)).2 x (hF x ((hS2F x).1 hx)).1 hpre))
@@ -66,6 +65,7 @@ theorem undo_paths_core (t : Tree) (rs : List Ren) (g : Guards t rs) (h6 : NoLin
     have := mapTree_nil t
     simp only [mapTree] at this
     simp only [moveAll, this]
+  unfold renameBack at hloop1 hloop2
   unfold undoRenames undoRenamesWith
   simp only [hdm, hloop1, hfr, hsf, hloop2]
 
